@@ -1,6 +1,6 @@
 SPECIFICATION TSpec
 CONSTANTS
-  Burst = 5
+  Burst = 12
   RatePerSec = 2
   TickMs = 250
   MaxTicks = 10
